@@ -289,10 +289,12 @@ theorem utf8EncodeChar_bytes (c : Nat) (h : c < 1114112) : IsBytes (utf8EncodeCh
   split at hb
   · simp only [List.mem_singleton] at hb; omega
   · split at hb
-    · simp only [List.mem_cons, List.not_mem_nil, or_false] at hb; omega
+    · simp only [List.mem_singleton] at hb; omega
     · split at hb
       · simp only [List.mem_cons, List.not_mem_nil, or_false] at hb; omega
-      · simp only [List.mem_cons, List.not_mem_nil, or_false] at hb; omega
+      · split at hb
+        · simp only [List.mem_cons, List.not_mem_nil, or_false] at hb; omega
+        · simp only [List.mem_cons, List.not_mem_nil, or_false] at hb; omega
 
 theorem utf8Encode_bytes (s : List Nat) (h : ∀ c ∈ s, c < 1114112) : IsBytes (utf8Encode s) := by
   intro b hb
